@@ -8,6 +8,10 @@
 //!   `rnd <iters,iters,..> <maxsteps> <seed> <spur_permille> <len>`   uniformly random runnable thread for `len` events
 //!   `stress <threads> <iters>`   real OS threads, real futex system calls, no scheduling control
 //!        (prints `stress <ok|excl|baddata|timeout> <count>`)
+//!   `twomap <rounds>`   one shared-memory region mapped twice; a thread holds the lock through one
+//!        mapping, another really sleeps in futex_wait through the other mapping (real system calls,
+//!        no shim), the holder unlocks, the sleeper must acquire within 5 s; roles alternate
+//!        (prints `twomap <ok|timeout|setup-failed> ...`)
 //! events: `r<t>.<c>` run thread t (c = which sleeper a futex_wake picks), `s<t>` spurious wake-up of t.
 //!
 //! stdout per case:
@@ -230,6 +234,82 @@ fn run_case(iters: &[usize], maxsteps: usize, mut src: Source, want_trace: bool)
     }
 }
 
+/// The mutex lives in shared memory that every mapping places at a different
+/// virtual address: a wake issued through one mapping must reach a waiter that
+/// sleeps through another one (process-shared futex).  Real futex system calls.
+fn twomap(rounds: usize) -> String {
+    use std::sync::atomic::{AtomicBool, Ordering};
+    use std::sync::mpsc;
+    use std::time::{Duration, Instant};
+    type M = VerifMutex<u64>;
+    assert!(std::mem::size_of::<M>() == 16 && std::mem::align_of::<M>() == 8);
+    // SAFETY: plain libc calls; the region is 4096 zero bytes = an unlocked Mutex<u64> holding 0.
+    let (p1, p2) = unsafe {
+        let fd = libc::memfd_create(c"hx-conc-twomap".as_ptr(), 0);
+        if fd < 0 || libc::ftruncate(fd, 4096) != 0 {
+            return "twomap setup-failed memfd".to_string();
+        }
+        let a = libc::mmap(std::ptr::null_mut(), 4096, libc::PROT_READ | libc::PROT_WRITE, libc::MAP_SHARED, fd, 0);
+        let b = libc::mmap(std::ptr::null_mut(), 4096, libc::PROT_READ | libc::PROT_WRITE, libc::MAP_SHARED, fd, 0);
+        if a == libc::MAP_FAILED || b == libc::MAP_FAILED || a == b {
+            return "twomap setup-failed mmap".to_string();
+        }
+        (a as usize, b as usize)
+    };
+    // SAFETY: both pointers map the same zero-initialised, suitably aligned, never unmapped region.
+    let maps: [&'static M; 2] = unsafe { [&*(p1 as *const M), &*(p2 as *const M)] };
+    let mut really_slept = 0usize;
+    for round in 0..rounds {
+        let (holder, waiter) = (maps[round % 2], maps[(round + 1) % 2]);
+        let g = holder.lock();
+        let (tx_tid, rx_tid) = mpsc::channel();
+        let (tx_done, rx_done) = mpsc::channel();
+        let acquired = Arc::new(AtomicBool::new(false));
+        let acq2 = acquired.clone();
+        std::thread::spawn(move || {
+            // SAFETY: gettid has no preconditions.
+            let _ = tx_tid.send(unsafe { libc::syscall(libc::SYS_gettid) });
+            let mut w = waiter.lock();
+            acq2.store(true, Ordering::SeqCst);
+            *w += 1;
+            drop(w);
+            let _ = tx_done.send(());
+        });
+        let tid = rx_tid.recv().unwrap_or(0);
+        // wait until the waiter is really asleep in the kernel (futex_wait), at most 2 s
+        let t0 = Instant::now();
+        let mut asleep = false;
+        while t0.elapsed() < Duration::from_secs(2) {
+            std::thread::sleep(Duration::from_millis(5));
+            let wchan = std::fs::read_to_string(format!("/proc/self/task/{tid}/wchan")).unwrap_or_default();
+            let stat = std::fs::read_to_string(format!("/proc/self/task/{tid}/stat")).unwrap_or_default();
+            let state = stat.rsplit(')').next().and_then(|r| r.split_whitespace().next()).unwrap_or("?").to_string();
+            if wchan.contains("futex") || (state == "S" && holder.key() == 2 && t0.elapsed() > Duration::from_millis(50)) {
+                asleep = true;
+                break;
+            }
+        }
+        if acquired.load(Ordering::SeqCst) {
+            return format!("twomap excl round={round} (the waiter acquired while the lock was held through the other mapping)");
+        }
+        if asleep {
+            really_slept += 1;
+        }
+        drop(g); // unlock through the holder's mapping: swap + futex_wake on *its* address
+        if rx_done.recv_timeout(Duration::from_secs(5)).is_err() {
+            return format!(
+                "twomap timeout round={round} holder_mapping={} waiter_mapping={} waiter_asleep={asleep} key={} (waiter never woken after unlock)",
+                round % 2, (round + 1) % 2, holder.key()
+            );
+        }
+    }
+    let total = *maps[0].lock();
+    if total != rounds as u64 {
+        return format!("twomap baddata {total}");
+    }
+    format!("twomap ok rounds={rounds} really_asleep={really_slept}")
+}
+
 /// Free-running threads on the real futex: what the interleaving model cannot exhibit.
 fn stress(threads: usize, iters: usize) -> String {
     use std::sync::atomic::{AtomicBool, AtomicU32, Ordering};
@@ -287,6 +367,12 @@ fn main() {
             Some(k) => k,
             None => continue,
         };
+        if kind == "twomap" {
+            let rounds: usize = it.next().unwrap().parse().unwrap();
+            writeln!(out, "{}", twomap(rounds)).unwrap();
+            out.flush().unwrap();
+            continue;
+        }
         if kind == "stress" {
             let th: usize = it.next().unwrap().parse().unwrap();
             let k: usize = it.next().unwrap().parse().unwrap();
